@@ -174,6 +174,52 @@ struct ScriptedDirection {
     Params get_params() const { return {}; }
 };
 
+// ---------------------------------------------------------------------------------------------- scripted TR direction (PANTR)
+// (added for the PANTR whole-run check) apply() returns a scripted step clipped to the trust radius and a scripted model value.
+struct ScriptedTRDirection {
+    USING_ALPAQA_CONFIG(alpaqa::DefaultConfig);
+    using Problem           = alpaqa::TypeErasedProblem<config_t>;
+    using AcceleratorParams = std::monostate;
+    using DirectionParams   = std::monostate;
+    struct Params {
+        AcceleratorParams accelerator = {};
+        DirectionParams direction     = {};
+    };
+    // per apply(): 0 q=0,qm=0 | 1 clip(p), q.grad | 2 clip(3p), q.grad | 3 clip(-γ grad), q.grad | 4 clip(10 grad), -1 | 5 NaN, -1
+    //              6 clip(p), -1e-3 | 7 clip(p), NaN | 8 clip(1e8 p), q.grad
+    std::vector<int> script;
+    bool initial = false;
+    mutable size_t pos = 0;
+    ScriptedTRDirection() = default;
+    ScriptedTRDirection(Params) {}
+    void initialize(const Problem &, crvec, crvec, real_t, crvec, crvec, crvec, crvec) { H.on_dircall(); }
+    bool has_initial_direction() const { return initial; }
+    bool update(real_t, real_t, crvec, crvec, crvec, crvec, crvec, crvec) { H.on_dircall(); return true; }
+    static void clip(rvec q, real_t Δ) {
+        real_t nrm = q.norm();
+        if (nrm > Δ) q *= (Δ / nrm);
+    }
+    real_t apply(real_t γ, crvec, crvec, crvec p, crvec grad, real_t Δ, rvec q) const {
+        H.on_dircall();
+        int kind = script.empty() ? 0 : script[pos++ % script.size()];
+        switch (kind) {
+            case 1: q = p; clip(q, Δ); return q.dot(grad);
+            case 2: q = 3 * p; clip(q, Δ); return q.dot(grad);
+            case 3: q = -γ * grad; clip(q, Δ); return q.dot(grad);
+            case 4: q = 10 * grad; clip(q, Δ); return -1;
+            case 5: q.setConstant(alpaqa::NaN<config_t>); return -1;
+            case 6: q = p; clip(q, Δ); return real_t(-1e-3);
+            case 7: q = p; clip(q, Δ); return alpaqa::NaN<config_t>;
+            case 8: q = 1e8 * p; clip(q, Δ); return q.dot(grad);
+            default: q.setZero(); return 0;
+        }
+    }
+    void changed_γ(real_t, real_t) {}
+    void reset() {}
+    std::string get_name() const { return "ScriptedTRDirection"; }
+    Params get_params() const { return {}; }
+};
+
 // ---------------------------------------------------------------------------------------------- recording
 struct Rec {
     std::vector<std::string> lines;
@@ -363,7 +409,15 @@ int main() {
             bool ok = true;
             if (solver == "panoc") ok = dispatch_dir<alpaqa::PANOCSolver>(dir, vp, r, j);
             else if (solver == "zerofpr") ok = dispatch_dir<alpaqa::ZeroFPRSolver>(dir, vp, r, j);
-            else if (solver == "pantr") {
+            else if (solver == "pantr" && dir == "scripted") {
+                alpaqa::PANTRParams<config_t> sp;
+                apply_params(sp, "solver");
+                ScriptedTRDirection d;
+                d.script  = g_script;
+                d.initial = g_script_initial;
+                alpaqa::PANTRSolver<ScriptedTRDirection> s{sp, std::move(d)};
+                run_solver(s, vp, r, j);
+            } else if (solver == "pantr") {
                 using Dir = alpaqa::NewtonTRDirection<config_t>;
                 alpaqa::PANTRParams<config_t> sp;
                 apply_params(sp, "solver");
